@@ -119,12 +119,12 @@ def run_engine_k(prop, tier, seed, only=None):
         known = load_known()
         for h in sel:
             r = results[h.full]
-            verdict, why = kani.classify(h, r)
+            verdict, why = kani.classify(h, r, prop)
             r["verdict"], r["why"] = verdict, why
             if verdict == "inconclusive":
                 out["inconclusive"].append((h.name, why))
             elif verdict == "violation":
-                descs = " ;; ".join(c["description"] for c in r.get("failed_checks", []) if "unwinding" not in c["description"])
+                descs = " ;; ".join(c["description"] for c in r.get("failed_checks", []) if "unwinding" not in c["description"] and kani.applies(c["description"], prop))
                 k = known_match(prop, h.name, descs, known)
                 if k:
                     out["known"].append((h.name, k))
